@@ -150,7 +150,7 @@ pub fn gen_c01(rng: &mut Rng, _k: usize, _tier: &str) -> J {
     }
     // units may exceed the multiplicity assumption: many orders per user with a small max multiplicity
     json!({"sql": sql, "data_seed": rng.next() % 100000, "n_users": rng.range(2, 25), "max_orders": *rng.pick(&[1i64, 3, 12, 40]),
-           "eps": 1.0, "delta": 1e-4, "mult": *rng.pick(&[1.0, 2.0, 100.0]), "mult_share": *rng.pick(&[1.0, 0.01]), "remove": [rng.below(25), rng.below(25)],
+           "eps": 1.0, "delta": 1e-4, "mult": *rng.pick(&[1.0, 2.0, 100.0, 2.5]), "mult_share": *rng.pick(&[1.0, 0.01, 0.013]), "remove": [rng.below(25), rng.below(25)],
            // the number of rows per unit is whatever the data says: a privacy unit declared as a key of `users` may still own several rows there
            // (the declaration only sets the assumed multiplicity to 1; the clipping has to enforce the bound)
            "dup_users": rng.chance(1, 4)})
@@ -231,6 +231,10 @@ pub fn eval_c01(case: &J) -> Outcome {
                 if dist > c * 0.999 && *c > 0.0 { clipped_active = true; }
                 if dist > c * (1.0 + 1e-6) + 1e-6 {
                     out.fail("C01/exec/sensitivity-exceeds-clip", format!("{sql} with {:?}: removing privacy unit {uid} changes the noised column `{cname}` by {dist} in L2 norm over the released groups, more than the clipping bound C = {c} the noise was scaled by (D: {:?}, D': {:?})", p, r0.1.iter().take(4).collect::<Vec<_>>(), r1.1.iter().take(4).collect::<Vec<_>>()));
+                    // the same run read as C03: the event records a multiplier m for this sum, the noise actually applied relative to what one
+                    // unit can move is σ / dist — a larger recorded multiplier under-reports the privacy loss
+                    if let Some(m) = ms.iter().cloned().fold(None, |a: Option<f64>, x| Some(a.map_or(x, |y| y.min(x)))) { if *sigma > 0.0 && m > sigma / dist * (1.0 + 1e-6) {
+                        out.fail("C03/exec/multiplier-over-reported", format!("{sql} with {:?}: the event records noise multiplier {m} but removing privacy unit {uid} moves the noised column `{cname}` by {dist} for σ = {sigma}: the multiplier actually applied is {}", p, sigma / dist)); } }
                     return out;
                 }
             }
